@@ -43,9 +43,13 @@ def _depends(r, var):
     for v in r.vars():
         if v == var:
             return True
-        if isinstance(v, SAtom) and any(
-                isinstance(z, Rat) and _depends(z, var) for z in v[1:]):
-            return True
+        if isinstance(v, SAtom):
+            for z in v[1:]:
+                if isinstance(z, Rat) and _depends(z, var):
+                    return True
+                if isinstance(z, tuple) and any(
+                        isinstance(y, Rat) and _depends(y, var) for y in z):
+                    return True
     return False
 
 
